@@ -15,7 +15,8 @@ func priceGrid(tier string) (*PureEvidence, []Found) {
 	found := map[string]*Found{}
 	rig := NewRig(RigConfig{})
 	ps := defaultParams()
-	bases := []int64{0, 1, 2, 3, 6, 10, 999, 1000000000000000000}
+	// published prices; a fractional part is below the smallest unit of `stake` and is dropped when the price terms are stored
+	bases := []string{"0", "1", "2", "3", "6", "10", "999", "1000000000000000000", "0.5", "1.5", "2.75", "7.5"}
 	ts := func(sec int) string { return T0.Add(timeSec(sec)).Format("2006-01-02T15:04:05Z") }
 	timeLayouts := []string{
 		"",
@@ -40,7 +41,7 @@ func priceGrid(tier string) (*PureEvidence, []Found) {
 	for _, base := range bases {
 		for ti, tl := range timeLayouts {
 			for vi, vl := range volLayouts {
-				parts := []string{fmt.Sprintf(`"price":"%dstake"`, base)}
+				parts := []string{fmt.Sprintf(`"price":"%sstake"`, base)}
 				if tl != "" {
 					parts = append(parts, `"promotions_by_time":`+tl)
 				}
@@ -81,7 +82,7 @@ func priceGrid(tier string) (*PureEvidence, []Found) {
 							ev.Counters["one-unit-floor"]++
 						}
 						rec := func(clause, which string, g string) {
-							sig := fmt.Sprintf("C07|%s|pure|%s/base=%d/tl=%d/vl=%d", clause, which, base, ti, vi)
+							sig := fmt.Sprintf("C07|%s|pure|%s/base=%s/tl=%d/vl=%d", clause, which, base, ti, vi)
 							if f, ok := found[sig]; ok {
 								f.Count++
 								return
